@@ -11,6 +11,7 @@ import (
 	"strconv"
 	"strings"
 	"sync"
+	"sync/atomic"
 	"time"
 
 	"github.com/prometheus/client_golang/prometheus"
@@ -266,6 +267,8 @@ func lcReplay(idx int, b lcBehaviour, mode string) lcResult {
 	return res
 }
 
+var lcReplays atomic.Int64
+
 func lcOnce(resp *lcResult, r *lcRun, scn *scenarios.Scenarios, b lcBehaviour, mode string) {
 	res := *resp
 	defer func() { *resp = res }()
@@ -279,8 +282,14 @@ func lcOnceInner(res *lcResult, r *lcRun, scn *scenarios.Scenarios, b lcBehaviou
 		return *res
 	}
 	m := metrics.NewInstance(prometheus.NewRegistry(), true, nil)
+	// every other replay runs with a logger that is disabled at every level (a user-supplied quiet logger): what the
+	// scenario's failures and panics mean must not depend on whether anybody listens to the log
+	out := ui.NewDiscardOutput()
+	if lcReplays.Add(1)%2 == 0 {
+		out = ui.NewOutput(discardLogger(), ui.NewDiscardPrinter(), false, false)
+	}
 	rn, err := run.NewRun(options.RunOptions{Scenario: "lc", MaxDuration: 20 * time.Second, Concurrency: 1,
-		MaxIterations: uint64(b.NIter), Verbose: true}, scn, trig, 5*time.Second, envsettings.Settings{}, m, ui.NewDiscardOutput())
+		MaxIterations: uint64(b.NIter), Verbose: true}, scn, trig, 5*time.Second, envsettings.Settings{}, m, out)
 	if err != nil {
 		res.Note = "newrun: " + err.Error()
 		return *res
